@@ -118,6 +118,10 @@ class Gen:
         fn = "lv_%s_%s" % (mname, "_".join(path) if path else "root")
         L.append("static auto %s(%s m, const int* ip) -> decltype(%s) { (void)ip; return %s; }" % (fn, M, nav, nav))
         L.append('VH_REG_LEVEL("%s", %s, %s);' % (key, M, fn))
+        cl = lambda xs: "{" + ", ".join('"%s"' % x for x in xs) + "}"
+        L.append('VH_REG_STRUCT("%s", {%s, %s, %s});' % (
+            key, cl("/".join(lp) for (lp, _, _, _) in self.level_leaves(lv)),
+            cl(g["name"] for g in lv.get("groups", [])), cl(d["name"] for d in lv.get("data", []))))
         for (lp, chain, acc, kind) in self.level_leaves(lv):
             parent = "".join(".%s()" % c for c in chain)
             L.append('VH_REG_LEAF("%s:%s", %s, %s, %s, %s, VH_KIND_%s);' % (
